@@ -12,6 +12,23 @@ CLAIMS = {
   design="DESIGN.md §4 C19",
   note="Assumes: representation invariants in harness/C19 (checked inductive); allocator/memcpy stubs of "
        "harness/common; sizes as listed per job in the evidence (alloc_cnt<=8, member_size<=2 quick/4 thorough, ...)."),
+ "C01": dict(
+  text="Bounded model checking (CBMC) of the real request life-cycle control code, decided modularly: ares_cancel/end_query/"
+       "ares_free_query/ares_requeue_query from an arbitrary valid link state with callbacks that re-enter ares_cancel or "
+       "start requests; the whole search state machine (ares_search.c) one step at a time with ares_send_nolock as a "
+       "contract stub covering every status code. Exactly-once completion is a ghost counter; use-after-release and "
+       "double free are CBMC pointer checks; counterexamples are replayed natively under ASan.",
+  design="DESIGN.md §4 C01",
+  note="Assumes the module contracts listed in the evidence (reference containers slist_ref/szvp_ref, abstract DNS records, "
+       "G-send contract of ares_send_nolock, induction hypothesis for nested search callbacks); <= 2 (quick) / 3 (thorough) "
+       "live queries, re-entry depth 1."),
+ "C06": dict(
+  text="Bounded model checking (CBMC) of the real timeout arithmetic (ares_calc_query_timeout, ares_metrics_server_timeout, "
+       "timeadd, ares_timedout) for ALL option values in their legal int ranges, all try counts within the retry budget, "
+       "arbitrary metrics history and jitter: no shift/overflow/conversion UB, result within [base, maxtimeout].",
+  design="DESIGN.md §4 C06",
+  note="Assumes clock within [0,2^40] s, 1..16 servers; retry-budget induction harness (c06_budget) not yet built: the "
+       "claim covers the timeout computation half of the property only."),
 }
 NA = {}
 for i in range(1, 21):
